@@ -207,6 +207,54 @@ def _conjuncts(c):
         return _conjuncts(c.args[0]) + _conjuncts(c.args[1])
     return [c]
 
+def merge_by_conditions(items):
+    """items: list of (list of condition E's, value tree) describing a partition of cases.
+    Returns one value tree whose scalars are select-trees over the atomic conditions
+    (Shannon expansion in order of appearance), or None when shapes differ."""
+    vals = [v for _, v in items]
+    for v in vals[1:]:
+        if not same_shape(vals[0], v):
+            return None
+    lits = []
+    for conds, v in items:
+        d = {}; order = []
+        for x in conds:
+            for a in _conjuncts(x):
+                atom, pol = (a.args[0], False) if a.op == 'bnot' else (a, True)
+                if atom.op in ('ge', 'gt', 'ne') and not X.is_float(atom.args[0].ty):
+                    nm = {'ge': 'lt', 'gt': 'le', 'ne': 'eq'}[atom.op]
+                    atom = X.node(nm, atom.args, X.TB); pol = not pol
+                d[atom.id] = pol; order.append(atom)
+        lits.append((d, order))
+    def tree(idxs, used):
+        if len(idxs) == 1:
+            return ('leaf', idxs[0])
+        atom = None
+        for i in idxs:
+            for a in lits[i][1]:
+                if a.id not in used:
+                    atom = a; break
+            if atom is not None: break
+        if atom is None:
+            return ('leaf', idxs[0])
+        tr = [i for i in idxs if lits[i][0].get(atom.id, True)]
+        fl = [i for i in idxs if not lits[i][0].get(atom.id, False)]
+        u2 = used | {atom.id}
+        if not tr: return tree(fl, u2)
+        if not fl: return tree(tr, u2)
+        return ('ite', atom, tree(tr, u2), tree(fl, u2))
+    tr = tree(list(range(len(items))), frozenset())
+    def build(node, vs):
+        if node[0] == 'leaf': return vs[node[1]]
+        return X.select(node[1], build(node[2], vs), build(node[3], vs))
+    def merge(vs):
+        v0 = vs[0]
+        if isinstance(v0, E): return build(tr, vs)
+        if isinstance(v0, Agg): return Agg(v0.kind, v0.tid, [merge([v.fields[i] for v in vs]) for i in range(len(v0.fields))])
+        if isinstance(v0, EnumV): return EnumV(v0.tid, v0.variant, [merge([v.fields[i] for v in vs]) for i in range(len(v0.fields))])
+        return v0
+    return merge(vals)
+
 def same_shape(a, b):
     if isinstance(a, E) and isinstance(b, E):
         return a.ty == b.ty
@@ -1200,10 +1248,34 @@ class Interp:
         # dedupe stores (same Store object reached on several paths after it was made)
         seen = set()
         collected.sort(key=lambda x: x[1].seq)
+        uniq = []
         for o, stv, pc in collected:
-            if stv.seq in seen:
-                continue
-            seen.add(stv.seq)
+            if stv.seq not in seen:
+                seen.add(stv.seq); uniq.append((o, stv, pc))
+        # stores to the same element made on different control paths of one iteration are
+        # one store whose value is a select-tree over the branch conditions (if the paths
+        # partition the iteration: every path of the body performs such a store)
+        groups = {}
+        for o, stv, pc in uniq:
+            if not stv.qvars:
+                groups.setdefault((o, stv.index.id, stv.flat, stv.site), []).append((o, stv, pc))
+        merged_away = set()
+        extra = []
+        for gk, items in groups.items():
+            if len(items) > 1 and len(items) == rec.paths:
+                common = None
+                for o, stv, pc in items:
+                    g = stv.pc[rec.pre_pc_len:]
+                    common = g if common is None else tuple(x for x in common if x in g)
+                mv = merge_by_conditions([([x for x in stv.pc[rec.pre_pc_len:] if x not in common], stv.value) for o, stv, pc in items])
+                if mv is not None:
+                    o, first, pc = items[0]
+                    ns = Store(first.index, mv, (), (), first.flat, st.pc + tuple(common), first.site)
+                    for _, stv, _ in items: merged_away.add(stv.seq)
+                    extra.append((o, ns, pc))
+        uniq = [x for x in uniq if x[1].seq not in merged_away] + extra
+        uniq.sort(key=lambda x: x[1].seq)
+        for o, stv, pc in uniq:
             g = stv.pc[rec.pre_pc_len:] + stv.guard
             new = Store(stv.index, stv.value, g, stv.qvars + (rec.qvar,), stv.flat, ex.pc, stv.site)
             rec.raw_stores.append((o, new))
